@@ -3265,6 +3265,11 @@ static void MakeCode_Z80(void) {
 static void InitCode_Z80(void) {
     SetFlag(&ExtFlag, ExtFlagName, False);
     SetFlag(&LWordFlag, LWordFlagName, False);
+
+    /* no DDIR prefix is pending from the last statement of the previous pass
+       or source file */
+
+    CurrPrefix = LastPrefix = Pref_IN_N;
 }
 
 static Boolean IsDef_Z80(void) {
